@@ -146,15 +146,20 @@ class Expander:
         seen = seen | {key}
         dn = rd.node_by_id[defs[0]]
         a = dn.ast
-        if dn.kind == "stmt" and not self._stable(rd, dn, node, a, e.id):
-            # the defining expression reads a variable that has been reassigned or
-            # mutated between the definition and this use: substituting it here
-            # would denote another value
-            return clone_ast(e)
+        if dn.kind == "stmt":
+            r = self._name_def(e, a, dn, fi, bindings, depth, seen)
+            # the substituted expression is written in terms of the names left
+            # unexpanded at the definition; if one of them has been reassigned or
+            # mutated between the definition and this use, it would denote
+            # another value here: keep the name
+            if r is not None and not self._stable(rd, dn, node, r, e.id):
+                return clone_ast(e)
+            return r if r is not None else clone_ast(e)
         if dn.kind == "for":
             return self._loopvar(e.id, a, fi, bindings, depth, seen)
-        if dn.kind != "stmt":
-            return clone_ast(e)
+        return clone_ast(e)
+
+    def _name_def(self, e, a, dn, fi, bindings, depth, seen):
         if isinstance(a, ast.AnnAssign) and a.value is not None and isinstance(a.target, ast.Name):
             return self._x(a.value, fi, a, bindings, depth + 1, seen)
         if isinstance(a, ast.Assign):
@@ -170,25 +175,29 @@ class Expander:
         if isinstance(a, ast.AugAssign) and isinstance(a.target, ast.Name) and a.target.id == e.id:
             prev = self._x(ast.Name(id=e.id, ctx=ast.Load()), fi, a, bindings, depth + 1, seen)
             return ast.BinOp(left=prev, op=clone_ast(a.op), right=self._x(a.value, fi, a, bindings, depth + 1, seen))
-        return clone_ast(e)
+        return None
 
-    def _stable(self, rd, dn, use, a, name) -> bool:
-        """may the defining expression of `name` (statement `a`) be substituted
-        at `use`?  Every variable it reads must denote the same value there:
-        same reaching definitions, except attribute stores `v.attr = ...` on an
-        object of which the expression only reads other attributes."""
-        val = getattr(a, "value", None)
-        if val is None:
-            return True
+    def _stable(self, rd, dn, use, xv, name) -> bool:
+        """may `xv` (the expansion, at its definition `dn`, of the value bound to
+        `name`) be substituted at `use`?  Every name left in it must denote the
+        same value there: same reaching definitions, except attribute stores
+        `v.attr = ...` on an object of which the expression only reads other
+        attributes.  (Calls are assumed to be functions of their arguments.)"""
         reads = {}
-        for n in ast.walk(val):
-            if isinstance(n, ast.Name) and isinstance(n.ctx, ast.Load) and n.id != name:
-                p = getattr(n, "_parent", None)
-                attr = p.attr if isinstance(p, ast.Attribute) and p.value is n else None
+
+        def walk(n, parent):
+            if isinstance(n, ast.Name) and isinstance(n.ctx, ast.Load):
+                attr = parent.attr if isinstance(parent, ast.Attribute) and parent.value is n else None
                 reads.setdefault(n.id, set()).add(attr)
+            for c in ast.iter_child_nodes(n):
+                walk(c, n)
+
+        walk(xv, None)
         for v, attrs in reads.items():
             d1, d2 = set(rd.reaching(v, dn)), set(rd.reaching(v, use))
             if d1 == d2:
+                continue
+            if v == name:
                 continue
             if None in attrs:
                 return False
@@ -206,10 +215,8 @@ class Expander:
                         if isinstance(x, ast.Name) and x.id == v:
                             if not (isinstance(t, ast.Attribute) and t.value is x and t.attr not in attrs):
                                 return False
-                # a call in the statement may still mutate v: reaching-defs lists it as a
-                # mutation only when v is passed/receiver, which the loop above rejects
                 val2 = getattr(st, "value", None)
-                if val2 is not None and any(isinstance(x, ast.Name) and x.id == v and not (isinstance(getattr(x, "_parent", None), ast.Attribute)) for x in ast.walk(val2)):
+                if val2 is not None and any(isinstance(x, ast.Name) and x.id == v and not isinstance(getattr(x, "_parent", None), ast.Attribute) for x in ast.walk(val2)):
                     return False
         return True
 
